@@ -503,7 +503,7 @@ ERR_CODES = {
     "TSK_ERR_EDGES_NOT_SORTED_PARENT_TIME": 8, "TSK_ERR_EDGES_NOT_SORTED_CHILD": 8,
     "TSK_ERR_EDGES_NOT_SORTED_LEFT": 8, "TSK_ERR_EDGES_NONCONTIGUOUS_PARENTS": 8,
     "TSK_ERR_DUPLICATE_EDGES": 8, "TSK_ERR_CANT_PROCESS_EDGES_WITH_METADATA": 9,
-    "TSK_ERR_BAD_EDGES_CONTRADICTORY_CHILDREN": 10,
+    "TSK_ERR_BAD_EDGES_CONTRADICTORY_CHILDREN": 10, "TSK_ERR_INDIVIDUAL_PARENT_CYCLE": 11,
 }
 
 
@@ -1463,11 +1463,186 @@ class SortInv(Family):
         return shrink_case(case)
 
 
-FAMILIES = [Sort, Repair, MutParents, Canon, Dedup, Squash, Index, SortInv]
+# --------------------------------------------------------------------------
+# Family: sort_individuals()
+# --------------------------------------------------------------------------
+
+def pedigree_desc(rng, cycle=False):
+    """A consistent collection whose individual table is a random pedigree (parents drawn
+    from earlier rows, then the rows are shuffled with all references remapped), with
+    location / metadata on individuals and usually more nodes than individuals."""
+    d = base_desc(rng, small=rng.random() < 0.3)
+    n = len(d["nodes"])
+    nind = rng.randrange(2, 7)
+    inds = []
+    for i in range(nind):
+        par = [rng.choice([NULL] + list(range(i))) if i and rng.random() < 0.8 else NULL
+               for _ in range(rng.choice([0, 1, 2, 2, 3]))]
+        inds.append([rng.randrange(0, 4), [rng.randrange(-3, 4) for _ in range(rng.randrange(0, 3))], par,
+                     gen_ts.hx(rng, p=0.8)])
+    if cycle:
+        a = rng.randrange(nind)
+        b = rng.randrange(nind)
+        if a == b:
+            b = (a + 1) % nind
+        inds[a][2] = inds[a][2] + [b]
+        inds[b][2] = inds[b][2] + [a]
+    d["individuals"] = inds
+    for nd in d["nodes"]:
+        nd[3] = rng.randrange(nind) if rng.random() < 0.8 else NULL
+    return d
+
+
+def individual_bijections(before, after):
+    """All maps pi (old id -> new id) under which every row of `before` reappears in `after`
+    with its parents renamed by pi."""
+    n = len(before)
+    if len(after) != n:
+        return
+    content = lambda r: (r[0], tuple(r[1]), len(r[2]), r[3])   # noqa: E731
+    cands = [[j for j in range(n) if content(after[j]) == content(before[i])] for i in range(n)]
+
+    def rec(i, pi, used):
+        if i == n:
+            if all([pi[p] if p != NULL else NULL for p in before[k][2]] == list(after[pi[k]][2]) for k in range(n)):
+                yield list(pi)
+            return
+        for j in cands[i]:
+            if j not in used:
+                pi.append(j)
+                used.add(j)
+                yield from rec(i + 1, pi, used)
+                used.discard(j)
+                pi.pop()
+    yield from rec(0, [], set())
+
+
+class SortInd(Family):
+    """TableCollection.sort_individuals() (tsk_table_collection_individual_topological_sort)."""
+    name = "sortind"
+    workers = 8
+    prelude = PRELUDE
+
+    def coq_check(self, case, obs):
+        call = "sort_individuals %s" % coq_tables(obs["before"])
+        if "error" in obs:
+            exp = j_err(obs["error"])
+        else:
+            a = obs["after"]
+            exp = j_ok(jlist([jlist([jlist(["JZ %s" % cz(i[0]), jints(i[1]), jints(i[2]), jints(bytes.fromhex(i[3]))])
+                                     for i in a["individuals"]]), jints([n[3] for n in a["nodes"]])]))
+        return "J_eqb (j_res_with j_inds_nodes (%s)) %s" % (call, exp)
+
+    def generate(self, rng, tier):
+        nex, nrand = (4, 500) if tier == "quick" else (25, 5000)
+        for _ in range(nex):
+            d = pedigree_desc(rng)
+            for p in all_or_some_perms(rng, len(d["individuals"]), cap=120):
+                yield {"desc": d, "perms": {"individuals": p}}
+        for k in range(nrand):
+            d = pedigree_desc(rng, cycle=rng.random() < 0.06)
+            yield {"desc": d, "perms": random_perms(rng, d)}
+
+    def observe(self, case):
+        import tskit
+        d = apply_perms(case["desc"], case["perms"])
+        back = back_map(d)
+        tc = gen_ts.build_tables(d, sort=False, index=False)
+        before = dump(tc, back)
+        try:
+            tc.sort_individuals()
+        except tskit.LibraryError as e:
+            return {"error": err_class(e), "before": before, "after": dump(tc, back)}
+        after = dump(tc, back)
+        t2 = tc.copy()
+        t2.sort_individuals()
+        return {"before": before, "after": after, "idempotent": bool(t2.equals(tc))}
+
+    @staticmethod
+    def has_cycle(inds):
+        n = len(inds)
+        state = [0] * n
+
+        def visit(i):
+            if state[i] == 1:
+                return True
+            if state[i] == 2:
+                return False
+            state[i] = 1
+            for p in inds[i][2]:
+                if p != NULL and visit(p):
+                    return True
+            state[i] = 2
+            return False
+        return any(visit(i) for i in range(n))
+
+    def oracle(self, case, obs):
+        b, a = obs["before"], obs["after"]
+        cyc = self.has_cycle(b["individuals"])
+        if "error" in obs:
+            fails = []
+            if not cyc:
+                fails.append(("sortind-raises", obs["error"]))
+            if a != b:
+                fails.append(("sortind-error-modified-tables:parent-cycle" if cyc else "sortind-error-modified-tables",
+                              "%s, and %d individual rows became %d" % (obs["error"], len(b["individuals"]), len(a["individuals"]))))
+            return fails
+        if cyc:
+            return [("sortind-accepts-parent-cycle", "")]
+        fails = []
+        for t in ("edges", "sites", "mutations", "migrations", "populations", "L2"):
+            if a[t] != b[t]:
+                fails.append(("sortind-touches-" + t, ""))
+        if [n[:3] + n[4:] for n in a["nodes"]] != [n[:3] + n[4:] for n in b["nodes"]]:
+            fails.append(("sortind-touches-node-columns", ""))
+        for i, ind in enumerate(a["individuals"]):
+            if any(p != NULL and p >= i for p in ind[2]):
+                fails.append(("sortind-parent-not-before-child", "row %d parents %r" % (i, ind[2])))
+                break
+        pis = list(individual_bijections(b["individuals"], a["individuals"]))
+        if not pis:
+            fails.append(("sortind-individuals-not-permuted", "%r -> %r" % (b["individuals"], a["individuals"])))
+        else:
+            want = [n[3] for n in b["nodes"]]
+            got = [n[3] for n in a["nodes"]]
+            if not any([pi[x] if x != NULL else NULL for x in want] == got for pi in pis):
+                fails.append(("sortind-node-individual-not-image",
+                              "nodes.individual %r -> %r under %r" % (want, got, pis[0])))
+        if not obs["idempotent"]:
+            fails.append(("sortind-not-idempotent", ""))
+        return fails
+
+    def nontrivial(self, case, obs):
+        return "error" not in obs and obs["after"]["individuals"] != obs["before"]["individuals"] \
+            and len(obs["before"]["nodes"]) > len(obs["before"]["individuals"])
+
+    def describe(self, case, obs):
+        b = obs["before"]
+        return {"individuals": len(b["individuals"]), "more_nodes": len(b["nodes"]) > len(b["individuals"]),
+                "reordered": "error" if "error" in obs else obs["after"]["individuals"] != b["individuals"]}
+
+    def shrink(self, case):
+        d = case["desc"]
+        for t in ("edges", "sites", "mutations", "migrations"):
+            if d[t] and (t != "sites" or not d["mutations"]) and (t != "edges" or not d["mutations"]):
+                c = copy.deepcopy(case)
+                c["desc"][t] = []
+                c["perms"].pop(t, None)
+                yield c
+        for k in range(len(d["nodes"]) - 1, -1, -1):
+            used = any(k in (e[2], e[3]) for e in d["edges"]) or any(m[1] == k for m in d["mutations"]) \
+                or any(g[2] == k for g in d["migrations"])
+            if not used and k == len(d["nodes"]) - 1:
+                c = copy.deepcopy(case)
+                del c["desc"]["nodes"][k]
+                yield c
+
+
+FAMILIES = [Sort, Repair, MutParents, Canon, Dedup, Squash, Index, SortInv, SortInd]
 
 NOT_COVERED = [
     "canonicalise() with a non-empty migration table: tsk_table_collection_subset returns TSK_ERR_MIGRATIONS_NOT_SUPPORTED, so no canonical output exists to compare",
-    "sort_individuals() / individual_topological_sort is only exercised through canonicalise()",
+    "tsk_table_sorter_sort_individuals_canonical (canonicalise's individual ordering) is only checked through the row-order invariance oracle of family canon, not modelled",
     "mutation tables mixing known and unknown times inside one site (cmp_mutation is not transitive there; every later integrity check rejects them)",
     "glibc qsort itself (assumed: returns a sorted permutation; stability not assumed)",
 ]
